@@ -13,7 +13,7 @@ import json
 
 META = dict(
     id="C58",
-    specs=["ClientSvc.tla", "ClientSvcMC.tla", "ClientSvcTrace.tla", "ClientSvcSim.tla"],
+    specs=["ClientSvc.tla", "ClientSvcMC.tla", "ClientSvcTrace.tla", "ClientSvcSim.tla", "ClientSvcGroup.tla", "ClientSvcImpl.tla", "ClientSvcImplMC.tla", "ClientSvcImplSim.tla"],
     technique="TLA+ spec of the service the property describes (TLC exhaustive over 36 environment configurations, re-entrant calls included) + TLC trace validation of real ClientService executions: breadth-first exhaustive short histories with state hashing over the real service, seeded random long histories, and TLC-generated behaviours replayed on the real service",
     level_text="TLC checks on the specification, for every history up to the stated depth, that there is at most one open connection or attempt, that a retry is due exactly at failure time + policy(consecutive failures), that whenConnected Deferreds are resolved by the next connection / their failure limit / the stop, that stopService Deferreds fire exactly when nothing is open any more, and that every call and stimulus (re-entrant ones included) is accepted; every recorded execution of the real ClientService is validated by TLC as a behaviour of that specification with every logged field matched.",
     level_note="Trusted: TLC, the adapter's logging (callback arguments, exception classes, calls reaching the fake endpoint/transport/hook/policy). Failure classes delivered to Deferreds are logged but not constrained. Liveness is checked only as 'fires in the event that makes it due'. Histories beyond the enumerated depth are sampled. An execution is checked up to its first rejected event only.",
@@ -159,21 +159,58 @@ def fingerprint(trace, rej):
     return "%s%s/%s/before=%s" % (e["e"], arg, e["res"], before)
 
 
+def normalise(trace, reached):
+    """If the rejected event is a stopService/whenConnected call whose Deferred had already fired when it was
+    returned, its callback ran right after the call returned, i.e. the program is the sequential one in which the
+    callback's call is the next top-level call.  Return that history (or None): it names the failing call site better."""
+    if reached >= len(trace["ev"]):
+        return None
+    e = trace["ev"][reached]
+    if e["e"] not in ("stop", "when") or e["then"] == "none" or e["res"] != "ok":
+        return None
+    kind = "s" if e["e"] == "stop" else "w"
+    if not any(o["k"] == kind and o["i"] == e["newid"] for o in e["obs"]):
+        return None
+    ops = [list(o) for o in trace["ops"][: reached + 1]]
+    last = ops[-1]
+    then = last[-1]
+    last[-1] = "none"
+    follow = {"start": ["start"], "stop": ["stop", "none"], "when": ["when", 0, "none"]}[then]
+    return ops + [follow]
+
+
 def report(ctx, traces, rejects, limit=40):
+    # histories whose rejected event can be split into sequential calls are re-run in that form and re-validated
+    norm, owner = [], []
+    for x in rejects:
+        ops = normalise(traces[x.idx], x.reached)
+        if ops is not None:
+            norm.append(run_history(traces[x.idx]["cfg"], ops))
+            owner.append(x)
+    better = {}
+    if norm:
+        rej2 = ctx.validate("ClientSvcTrace", norm, count=False, shard_size=4000)
+        for y in rej2:
+            better[id(owner[y.idx])] = (norm[y.idx], y)
     by_fp = {}
     for x in rejects:
-        t = traces[x.idx]
-        by_fp.setdefault(fingerprint(t, x), []).append(x)
+        t, y = better.get(id(x), (traces[x.idx], x))
+        by_fp.setdefault(fingerprint(t, y), []).append((t, y))
     for fp, xs in sorted(by_fp.items()):
-        x = min(xs, key=lambda r: (r.reached, len(traces[r.idx]["ops"])))     # shortest witness
-        t = traces[x.idx]
+        t, x = min(xs, key=lambda ty: (ty[1].reached, len(ty[0]["ops"])))     # shortest witness
         ev = t["ev"][x.reached] if x.reached < len(t["ev"]) else None
         ops = t["ops"][: x.reached + 1]
-        for _ in xs[:1]:
-            ctx.violation(fp, "real ClientService execution not explained by ClientSvc.tla at event %d %s after ops %s (cfg %s); %d executions with this fingerprint"
-                          % (x.reached, json.dumps(ev), json.dumps(ops), json.dumps(t["cfg"]), len(xs)),
-                          dict(cfg=t["cfg"], ops=ops, rejected_at=x.reached))
+        ctx.violation(fp, "real ClientService execution not explained by ClientSvc.tla at event %d %s after ops %s (cfg %s); %d executions with this fingerprint"
+                      % (x.reached, json.dumps(ev), json.dumps(ops), json.dumps(t["cfg"]), len(xs)),
+                      dict(cfg=t["cfg"], ops=ops, rejected_at=x.reached))
     ctx.extra["reject_fingerprints"] = {fp: len(xs) for fp, xs in by_fp.items()}
+
+
+def canon(e):
+    d = {k: e[k] for k in ("e", "a", "k", "then", "m", "res", "newid")}
+    d["obs"] = sorted(json.dumps(o, sort_keys=True) for o in e["obs"])
+    d["nested"] = [json.dumps(x, sort_keys=True) for x in e["nested"]]
+    return d
 
 
 def mutate(t, rng):
@@ -209,12 +246,31 @@ def mutate(t, rng):
 
 # ----------------------------------------------------------------------------- the check
 def run(ctx):
-    from harness.core import MachineryError
+    import re
+    from harness.core import MachineryError, parse_tla_value
 
     r = ctx.mc("ClientSvcMC", ctx.pick("ClientSvcMC.cfg", "ClientSvcMC.thorough.cfg"))
     if not r.ok:
         raise MachineryError("ClientSvc spec violates its own invariants: " + r.error)
     ctx.require_actions("ClientSvcMC", ["Start", "Stop", "When", "Succeed", "Fail", "PrepOk", "PrepFail", "Drop", "Adv", "Nested"])
+
+    # Impl layer: ClientService AS CODED (automat table + dispatch semantics + Deferred chain, ClientSvcImpl.tla) against the
+    # property.  Under the five environment restrictions A..E TLC must find it accepted; dropping any one must give a
+    # counterexample, which is replayed on the real service below (a counterexample that does not reproduce = impl_drift).
+    ri = ctx.mc("ClientSvcImplMC", ctx.pick("ClientSvcImplMC.ALL.cfg", "ClientSvcImplMC.ALL.thorough.cfg"), coverage=False,
+                label="coded machine under environment restrictions A-E")
+    if not ri.ok:
+        raise MachineryError("ClientSvcImpl under restrictions A-E is not accepted by ClientSvc (new defect class or model error): " + ri.error[:1500]
+                             + "\n" + "".join(ri.cex[-1:])[-1500:])
+    design_cex = {}
+    for x in "ABCDE":
+        rx = ctx.mc("ClientSvcImplMC", "ClientSvcImplMC.%s.cfg" % x, must_pass=False, coverage=False,
+                    label="restriction %s dropped (counterexample expected)" % x)
+        if rx.ok or rx.kind != "invariant":
+            raise MachineryError("restriction %s is not necessary in the Impl model (%s): the model or the restriction is wrong" % (x, rx.kind or "no violation"))
+        m = re.search(r"ops = (<<.*)", rx.cex[-1], re.S)
+        cm = re.search(r"cfg = (\[.*?\])\n", rx.cex[-1], re.S)
+        design_cex[x] = dict(ops=parse_tla_value(m.group(1)), cfg=parse_tla_value(cm.group(1)))
 
     all_traces, all_rej = [], []
 
@@ -229,7 +285,7 @@ def run(ctx):
 
     # 1. exhaustive short histories, breadth first with state hashing over the real service; a history the
     #    specification rejected is not extended (nothing after the first rejected event can be checked).
-    depth = ctx.pick(3, 5)
+    depth = ctx.pick(3, 4)
     cfgs = []
     for hook in (False, True):
         for sc in (False, True):
@@ -253,7 +309,8 @@ def run(ctx):
         nnew = sum(len(f) for f in frontiers.values())
         nstates += nnew
         ctx.log("exhaustive level %d: %d executions, %d rejected, %d new states" % (lvl, len(lvl_traces), len(bad), nnew))
-    ctx.exhaustive = True
+    ctx.exhaustive = True          # every op of the alphabet from every distinct state of the real service up to `depth`
+    ctx.extra["exhaustive_note"] = "breadth-first with hashing of the real service's state; histories rejected by TLC are not extended"
     ctx.extra["exhaustive_depth"] = depth
     ctx.extra["exhaustive_states_of_real_service"] = nstates
 
@@ -275,8 +332,36 @@ def run(ctx):
     validate(sim)
     ctx.extra["spec_behaviours_replayed"] = len(behs)
 
+    # 4. Impl layer bound to the code: (a) the design-level counterexamples replayed on the real service must be rejected too;
+    #    (b) random behaviours of the Impl model (unrestricted environment) must be reproduced event for event.
+    drift = 0
+    cex_traces = [run_history(v["cfg"], v["ops"]) for v in design_cex.values()]
+    bad = validate(cex_traces)
+    rep = {}
+    for j, x in enumerate(design_cex):
+        if j in bad:
+            rj = [r for r in all_rej if r.idx == len(all_traces) - len(cex_traces) + j][0]
+            rep[x] = fingerprint(all_traces[rj.idx], rj)
+        else:
+            rep[x] = "NOT REPRODUCED on the real service"
+            drift += 1
+        ctx.log("design counterexample, restriction %s dropped: ops %s -> %s" % (x, json.dumps(design_cex[x]["ops"]), rep[x]))
+    ctx.extra["design_counterexamples"] = {x: dict(ops=design_cex[x]["ops"], real_code=rep[x]) for x in design_cex}
+    ibehs = ctx.simulate("ClientSvcImplSim", "ClientSvcImplSim.cfg", num=ctx.pick(60, 1500), depth=13)
+    isim = []
+    for b in ibehs:
+        t = run_history(b["cfg"], b["ops"])
+        if [canon(e) for e in t["ev"]] != [canon(e) for e in b["ev"]]:
+            drift += 1
+            if drift <= 3:
+                ctx.log("impl drift: cfg %s ops %s" % (json.dumps(b["cfg"]), json.dumps(b["ops"])))
+        isim.append(t)
+    validate(isim)
+    ctx.impl_drift = drift
+    ctx.extra["impl_behaviours_compared"] = len(ibehs)
+
     ctx.note_traces(all_traces)
-    ctx.log("recorded %d real executions, %d rejected" % (len(all_traces), len(all_rej)))
+    ctx.log("recorded %d real executions, %d rejected, impl drift %d" % (len(all_traces), len(all_rej), drift))
     acc_len = [len(t["ev"]) for i, t in enumerate(all_traces) if i not in {x.idx for x in all_rej}]
     ctx.extra["accepted_events_total"] = sum(acc_len)
     ctx.extra["accepted_events_checked_in_rejected"] = sum(x.reached for x in all_rej)
